@@ -433,6 +433,8 @@ class File(Group):
         self.filename = path
         self.mode = 'r+' if mode == 'a' else mode
         self.closed = False
+        from . import mpmodel
+        mpmodel.step(f'open {os.path.basename(path)} {mode}')
         OPENS.append((os.path.abspath(path), mode))
         tok = _read_token(path)
         exists = os.path.exists(path)
@@ -496,6 +498,9 @@ class File(Group):
 
     def __exit__(self, *a):
         self.close()
+        if a and a[0] is None:
+            from . import mpmodel
+            mpmodel.step(f'closed {os.path.basename(self.filename)}')
         return False
 
     def close(self):
